@@ -15,6 +15,17 @@ DOC_ALIASES["OldArm64"] = {"x29": "fp", "x30": "lr"}
 DOC_ALIASES["Sparc"] = {"%s%d" % (k, i): "g_r%d" % (b + i) for k, b in (("g", 0), ("o", 8), ("l", 16), ("i", 24)) for i in range(8)}
 DOC_SP_IP = {"X86": ("esp", "eip"), "Amd64": ("rsp", "rip"), "Arm": ("sp", "pc"), "Arm64": ("sp", "pc"), "OldArm64": ("sp", "pc"),
              "Ppc": ("r1", "srr0"), "Ppc64": ("r1", "srr0"), "Sparc": ("g_r14", "pc"), "Mips": ("sp", "pc")}
+_X = ["x%d" % i for i in range(29)] + ["fp", "lr", "sp", "pc"]
+_PPC = ["srr0", "srr1"] + ["r%d" % i for i in range(32)] + ["cr", "xer", "lr", "ctr"]
+DOC_REGISTERS = {
+    "Amd64": "rax rdx rcx rbx rsi rdi rbp rsp r8 r9 r10 r11 r12 r13 r14 r15 rip".split(),
+    "Arm": "r0 r1 r2 r3 r4 r5 r6 r7 r8 r9 r10 r12 fp sp lr pc".split(),
+    "Arm64": _X, "OldArm64": _X,
+    "Mips": "gp sp fp ra pc s0 s1 s2 s3 s4 s5 s6 s7".split(),
+    "Ppc": _PPC + ["mq", "vrsave"], "Ppc64": _PPC + ["vrsave"],
+    "Sparc": ["g_r%d" % i for i in range(32)] + "ccr pc npc y asi fprs".split(),
+    "X86": "eip esp ebp ebx esi edi eax ecx edx eflags".split(),
+}
 UNKNOWN = ["-", "foo", "$eip", "RAX", "Rsp", "x31", "r32", "g_r32", "g8", "pc.", "cpsr", "EIP", "zz"]
 
 
@@ -146,6 +157,8 @@ class C18(PropBase):
                 k += 1
                 return [0, 1, ones, rnd()][k % 4]
             n0 = len(cases)
+            # documented names the tables no longer mention are probed all the same (they must still be accepted)
+            names = names + [x for x in DOC_REGISTERS.get(variant, []) + list(DOC_ALIASES.get(variant, {})) if x not in names]
             for n in names:
                 for v in (0, 1, ones, rnd()):
                     cases.append("%s %s A %d" % (variant, n, v))
@@ -540,6 +553,8 @@ class C18(PropBase):
         accepted = d["st"] == "1"
         canon = d["mz"]
         # --- unknown names: absence, never a panic from the checked accessor
+        if not accepted and (name in DOC_REGISTERS[variant] or name in DOC_ALIASES[variant]):
+            return "%s: set_register refuses a documented register name / alias" % who
         if not accepted:
             if canon != "N":
                 return "%s: memoize_register accepts the name (%s) but set_register refuses it" % (who, canon)
@@ -602,6 +617,8 @@ class C18(PropBase):
         if d["ia"] != "1":
             return "%s: get_instruction_pointer() differs from get_register_always(%r) (instruction_pointer_register_name) on this context" % (who, d["ipn"])
         # --- enumerations
+        if RG != DOC_REGISTERS[variant]:
+            return "%s: REGISTERS is %s; the documented general-purpose registers are %s" % (variant, d["RG"], ",".join(DOC_REGISTERS[variant]))
         if lst(d["rn"]) != RG or lst(d["cr"]) != RG:
             return "%s: registers() lists %s / %s, REGISTERS is %s" % (variant, d["rn"], d["cr"], d["RG"])
         if len(set(RG)) != len(RG):
